@@ -48,24 +48,32 @@ def run(cx):
         c04.run(sub)
         w = [x for x in sub.obs if x.oid in ("C04.2c", "C04.1d")]
         ob.require(len(w) == 2 and not any(x.violations for x in w), "disconnect/remove-words", "ActivePeersInner::remove words / lock discipline refuted (C04.2c, C04.1d)", f"{CM}::ActivePeersInner::remove")
-        # rpc path
-        pb = cx.body(f"{NI}::peer")
-        po = Origins(pb)
-        g = pb.calls_to(f"{CM}::ActivePeers::get")
-        ob.floor(g, 1, "ActivePeers::get in peer()", exact=True)
-        ob.require(is_param(arg_origin(g[0], 1, po), "peer_id") and term_has_call(arg_origin(g[0], 0, po), f"{CM}::ActivePeersRef::upgrade"), "peer/lookup", "peer() does not look the id up in the live map", pb.path)
-        pn = pb.calls_to("anemo::network::peer::Peer::new")
-        t = arg_origin(pn[0], 0, po) if pn else ("u",)
-        ob.require(len(pn) == 1 and term_has_call(t, f"{CM}::ActivePeers::get") and any(x[0] == "variant" and x[2] == "Continue" for x in walk(t)), "peer/connection-from-map",
-                   f"Peer built from {show(t)[:80]}", pb.path)
+        # rpc path: every Peer handed out is built from a connection looked up by id in the live (upgraded) map, at each
+        # construction site (whatever NetworkInner method it lives in)
+        pns = prog.callers_of("anemo::network::peer::Peer::new", crates=["anemo"])
+        ob.floor(pns, 1, "Peer::new call sites")
+        for c in pns:
+            po = Origins(c.body)
+            t = arg_origin(c, 0, po)
+            gets = [x for x in walk(t) if x[0] == "call" and name_matches(x[1], f"{CM}::ActivePeers::get")]
+            ok = len(gets) >= 1 and any(x[0] == "variant" and x[2] in ("Continue", "Some") for x in walk(t)) and not term_has_call(t, ("Option::unwrap", "Option::expect", "Option::unwrap_or_default"))
+            if ok:
+                g = gets[0]
+                key = strip_identity(g[2][1])
+                src = g[2][0]
+                ok = (is_param(key, "peer_id") or key == ("upvar", "peer_id")) and (term_has_call(src, f"{CM}::ActivePeersRef::upgrade") or
+                                                                                   any(x[0] == "call" and x[1] in prog.bodies and prog.bodies[x[1]].calls_to(f"{CM}::ActivePeersRef::upgrade") for x in walk(src)))
+            ob.require(ok, f"peer/connection-from-map/{owner_path(prog, c.body)}", f"Peer built from {show(t)[:100]} in {c.body.path}", c.body.path, c.body.loc(c.bb))
         gb = cx.body(f"{CM}::ActivePeersInner::get")
         t = Origins(gb).of_local(0)
         hg = [x for x in walk(t) if x[0] == "call" and name_matches(x[1], "HashMap::get")]
         ob.require(len(hg) == 1 and mentions_field(hg[0][2][0], "connections") and is_param(hg[0][2][1], "peer_id"), "get/map", f"ActivePeersInner::get returns {show(t)}", gb.path)
         rb = cx.coroutine(f"{NI}::rpc")
         ro = Origins(rb)
-        oe = [c for c in rb.calls_to("Option::ok_or_else") if term_has_call(ro.of_operand(c.args[0]), f"{NI}::peer")]
-        ob.require(len(oe) == 1, "rpc/absent-is-error", "NetworkInner::rpc does not map a missing peer to an error", rb.path)
+        oe = [c for c in rb.calls() if name_matches(c.fn, ("Option::ok_or_else", "Option::ok_or")) and not rb.is_cleanup(c.bb)
+              and (term_has_call(ro.of_operand(c.args[0]), f"{NI}::peer") or term_has_call(ro.of_operand(c.args[0]), f"{CM}::ActivePeers::get"))]
+        tb = [c for c in rb.calls_to("Try::branch") if any(term_has_call(ro.of_operand(c.args[0]), ("Option::ok_or_else", "Option::ok_or")) for _ in (0,))]
+        ob.require(len(oe) == 1 and len(tb) >= 1, "rpc/absent-is-error", "NetworkInner::rpc does not map a missing peer to an error returned with `?`", rb.path)
 
     with cx.ob("C09.2", "R-DROP", "a rejected inbound connection is released: only borrowed before the decision, never cloned, dropped on reject paths, consumed only by handshake") as ob:
         task = cx.coroutine(f"{CM}::ConnectionManager::handle_incoming_task")
